@@ -7,6 +7,8 @@ ID="$1"; K="$2"
 WT=/tmp/wt/$ID; SD=$WT/SEED/seed$K
 cd $WT || exit 2
 git checkout -q -- . && git checkout -q --detach $(git -C /repo rev-parse HEAD) || exit 2
+# a target directory copied from elsewhere looks fresh to cargo although it was built from older sources: rebuild everything once
+find . -name '*.rs' -not -path './target/*' -not -path './SEED/*' -print0 | xargs -0 touch
 run_demo() {  # prints the demo's output (stdout+stderr first lines, exit status)
   if [ -f $SD/demo.sh ]; then
     ( timeout 120 sh $SD/demo.sh 2>&1 | grep -v "^stack backtrace\|^ *[0-9]*:\|^ *at \|^note:" | head -60 )
